@@ -115,12 +115,12 @@ impl Read for Dev {
     fn read(&mut self, buf: &mut [u8]) -> Result<usize> {
         let mut s = self.0.borrow_mut();
         s.tick()?;
-        let pos = s.pos as usize;
-        let avail = s.data.len().saturating_sub(pos);
+        let pos = (s.pos as usize).min(s.data.len());
+        let avail = s.data.len() - pos;
         let want = buf.len().min(avail);
         let n = s.chunk(want);
         buf[..n].copy_from_slice(&s.data[pos..pos + n]);
-        s.pos += n as u64;
+        s.pos = s.pos.saturating_add(n as u64);
         s.bytes_read += n as u64;
         if s.record {
             let w = buf.len();
